@@ -74,6 +74,11 @@ func runC10(c c10Case) (*vh.Violation, vh.Outcome) {
 	if c.Wait {
 		chain = vaa.ChainIDBSC
 	}
+	headTag := "finalized" // Ethereum outside dev mode is read at finalized height
+	if c.Wait {
+		headTag = "latest"
+	}
+	sim.final = sim.head
 	w := NewEthWatcher(ss.path, c10Contract, "sim", "verifReadiness", chain, msgC, setC, reqC, false, &poll, c.Wait)
 	ctx, cancel := context.WithCancel(context.Background())
 	defer cancel()
@@ -168,12 +173,20 @@ func runC10(c c10Case) (*vh.Violation, vh.Outcome) {
 				return false
 			}
 			sim.mu.Lock()
-			head := sim.head
+			head := sim.view(headTag)
+			// the poller's first answer only initialises its cursor: no header is published (or processed) for it
+			first, haveFirst := uint64(0), false
+			for k := range sim.served {
+				if sv := sim.served[k]; sv.method == "eth_getBlockByNumber" && sv.arg == headTag && !sv.err {
+					first, haveFirst = sv.head, true
+					break
+				}
+			}
 			sim.mu.Unlock()
 			if !w.ethConn.enabled.Load() {
 				return true
 			}
-			return processedHead() >= head || pendingLen() == 0 && !w.ethConn.enabled.Load()
+			return processedHead() >= head || haveFirst && head == first || pendingLen() == 0 && !w.ethConn.enabled.Load()
 		})
 	}
 
@@ -244,6 +257,15 @@ func runC10(c c10Case) (*vh.Violation, vh.Outcome) {
 			}
 			sim.mu.Unlock()
 			reorgOrJump = true
+		case "lag":
+			// finality falls behind the head by this many blocks (only visible to a watcher reading at finalized height)
+			sim.mu.Lock()
+			sim.lag = uint64(o.A)
+			sim.mu.Unlock()
+			if !c.Wait && o.A > 0 {
+				out.Labels = append(out.Labels, "finality-lag")
+			}
+			continue
 		case "fault":
 			sim.mu.Lock()
 			sim.faults[[]string{"eth_getTransactionReceipt", "eth_getBlockByNumber"}[o.A%2]] = 1 + o.B%2
@@ -307,6 +329,7 @@ func runC10(c c10Case) (*vh.Violation, vh.Outcome) {
 	if !restarted {
 		setOp(len(c.Ops))
 		sim.mu.Lock()
+		sim.lag = 0
 		sim.head += uint64(maxCL + 2)
 		sim.mu.Unlock()
 		if !settle() {
@@ -365,7 +388,7 @@ func runC10(c c10Case) (*vh.Violation, vh.Outcome) {
 		var lastRcpt *served
 		for k := 0; k < a.servedAt && k < len(servedLog); k++ {
 			s := servedLog[k]
-			if s.method == "eth_getBlockByNumber" && !s.err && (s.arg == "latest" || s.arg == "finalized") && s.head > maxHead {
+			if s.method == "eth_getBlockByNumber" && !s.err && s.arg == headTag && s.head > maxHead {
 				maxHead = s.head
 			}
 			if s.method == "eth_getTransactionReceipt" && s.arg == m.TxHash.Hex() && !s.err {
@@ -390,7 +413,7 @@ func runC10(c c10Case) (*vh.Violation, vh.Outcome) {
 			return vh.V("C10/moved-transaction-forwarded", "op %d: message of tx %s forwarded although its receipt now points to block %s, the log was in %s", a.opIdx, m.TxHash.Hex(), lastRcpt.bhash.Hex()[:10], t.OrigHash.Hex()[:10]), out
 		}
 		if t.OrigBlock+conf > maxHead {
-			return vh.V("C10/forwarded-too-shallow", "op %d: message of tx %s (block %d, %d confirmations required) forwarded when the highest head served was %d", a.opIdx, m.TxHash.Hex(), t.OrigBlock, conf, maxHead), out
+			return vh.V("C10/forwarded-too-shallow", "op %d: message of tx %s (block %d, %d confirmations required) forwarded when the highest head served under the tag the watcher reads (%s) was %d", a.opIdx, m.TxHash.Hex(), t.OrigBlock, conf, headTag, maxHead), out
 		}
 	}
 	// ---------------------------------------------------------------- exactly once (bounded liveness)
@@ -433,7 +456,7 @@ func runC10(c c10Case) (*vh.Violation, vh.Outcome) {
 				var headThen uint64
 				for k := range servedLog {
 					sv := servedLog[k]
-					if sv.method == "eth_getBlockByNumber" && !sv.err && (sv.arg == "latest" || sv.arg == "finalized") && sv.head > headThen {
+					if sv.method == "eth_getBlockByNumber" && !sv.err && sv.arg == headTag && sv.head > headThen {
 						headThen = sv.head
 					}
 					if sv.method == "eth_getTransactionReceipt" && sv.arg == t.Hash.Hex() && sv.err {
@@ -467,7 +490,9 @@ func runC10(c c10Case) (*vh.Violation, vh.Outcome) {
 func genC10(t *rapid.T) c10Case {
 	c := c10Case{Wait: rapid.Bool().Draw(t, "wait")}
 	op := rapid.Custom(func(t *rapid.T) c10Op {
-		switch rapid.SampledFrom([]string{"log", "log", "log", "advance", "advance", "advance", "reorg", "fault", "reobserve"}).Draw(t, "k") {
+		switch rapid.SampledFrom([]string{"log", "log", "log", "advance", "advance", "advance", "reorg", "fault", "reobserve", "lag"}).Draw(t, "k") {
+		case "lag":
+			return c10Op{K: "lag", A: rapid.SampledFrom([]int{0, 1, 2, 5, 12, 64}).Draw(t, "lag")}
 		case "log":
 			return c10Op{K: "log", A: rapid.SampledFrom([]int{0, 0, 0, 0, 1, 2}).Draw(t, "kind"), B: rapid.OneOf(rapid.IntRange(0, 5), rapid.IntRange(0, 40), rapid.SampledFrom([]int{0, 1, 15, 200, 255})).Draw(t, "cl"), C: rapid.IntRange(0, 1000).Draw(t, "c")}
 		case "advance":
